@@ -15,6 +15,21 @@ pub struct IoH {
     _client: IoTest,
     log: RefCell<Vec<u8>>,
 }
+pub fn with_io_cfg<R: 'static>(rate: Option<(u16, u16, u32)>, f: impl FnOnce(&IoH) -> R + 'static) -> R {
+    ntex::rt::System::build().name("replay").testing().build(ntex::rt::DefaultRuntime).block_on(async move {
+        let (client, server) = IoTest::create();
+        let mut cfg = ntex_io::IoConfig::new();
+        if let Some((t, m, r)) = rate {
+            cfg = cfg.set_frame_read_rate(ntex_util::time::Seconds(t), ntex_util::time::Seconds(m), r);
+        }
+        let io = Io::new(server, SharedCfg::new("replay").add(cfg));
+        let ioref = io.get_ref();
+        let h = IoH { io: RefCell::new(Some(io)), ioref, _client: client, log: RefCell::new(Vec::new()) };
+        let r = f(&h);
+        std::mem::forget(h);
+        r
+    })
+}
 struct YieldNow(bool);
 impl std::future::Future for YieldNow {
     type Output = ();
@@ -120,6 +135,13 @@ impl IoH {
     }
     pub fn torn(&self) -> usize {
         self.parse().1
+    }
+    /// not observable on the real io object: the Kani flavour checks timer arming
+    pub fn timer_starts(&self) -> usize {
+        0
+    }
+    pub fn timer_last(&self) -> u16 {
+        0
     }
     pub fn shutdown_requested(&self) -> bool {
         self.ioref.is_closed() || self.ioref.with_write_buf(|_| ()).is_err()
